@@ -35,10 +35,17 @@ func fileHash(path string) string {
 
 // openWatched opens an index under a watchdog and panic recovery.
 // Outcome: OK | ERR | PANIC | HANG.
+// openHangs counts opens that never returned; after three of them further opens are not
+// attempted (each would cost the full watchdog time) and are reported as HANG as well.
+var openHangs int
+
 func openWatched(path string, mode string) (*updog.Index, string) {
 	type res struct {
 		ix *updog.Index
 		oc string
+	}
+	if openHangs >= 3 {
+		return nil, "HANG"
 	}
 	ch := make(chan res, 1)
 	go func() {
@@ -68,6 +75,7 @@ func openWatched(path string, mode string) (*updog.Index, string) {
 	case r := <-ch:
 		return r.ix, r.oc
 	case <-time.After(25 * time.Second):
+		openHangs++
 		return nil, "HANG"
 	}
 }
